@@ -238,24 +238,21 @@ def check_vmlog(chk, m, info):
         if T is None:
             chk.unknown("L3.fold", pid, "fold is not guarded by `new head >= T`", ev[hs[1]].inst.loc)
             continue
-        F = None
-        if fv[0] == "b" and fv[1] == "sub" and strip_casts(fv[3]) == strip_casts(new) and fv[4][0] == "c":
-            F = fv[4][2]
-            res_ok = F % n == 0
-            keep = T - F >= n
-            desc = "head -= %d at head == %d" % (F, T)
-        elif fv[0] == "b" and fv[1] == "add" and strip_casts(fv[3]) == strip_casts(new) and fv[4][0] == "c" and fv[4][2] >> 31:
-            F = (1 << fv[2]) - fv[4][2]
-            res_ok = F % n == 0
-            keep = T - F >= n
-            desc = "head -= %d at head == %d" % (F, T)
-        elif fv[0] == "c":
-            res_ok = fv[2] % n == T % n
-            keep = fv[2] >= n and fv[2] < T
-            desc = "head := %d at head == %d" % (fv[2], T)
-        else:
-            chk.unknown("L3.fold", pid, "fold value %s not modelled" % fmt(fv)[:60], ev[hs[1]].inst.loc)
+        # the counter moves in steps of one and is folded at once, so the fold happens exactly when new head == T:
+        # evaluate the folded value at old head == T-1 (finite-set evaluation, one point)
+        from ..paths import eval_concrete, NoValue, subexprs
+        env = {}
+        for x in subexprs(ev[hs[1]].val):
+            if x[0] == "ld" and is_head(x[1], info):
+                env[x] = (T - 1) & 0xffffffff
+        try:
+            folded = eval_concrete(ev[hs[1]].val, env) & 0xffffffff
+        except NoValue:
+            chk.unknown("L3.fold", pid, "fold value %s not evaluable" % fmt(fv)[:60], ev[hs[1]].inst.loc)
             continue
+        res_ok = folded % n == T % n
+        keep = n <= folded < T
+        desc = "at head == %d the counter is folded to %d" % (T, folded)
         chk.ob("L3.fold-residue", pid, res_ok,
                "%s: the slot residue (head mod %d) must be preserved, otherwise the oldest-first order is rotated after the wrap"
                % (desc, n), ev[hs[1]].inst.loc, fn.name)
